@@ -59,7 +59,10 @@ PROP = {
                       "nothing readable, lengths add up, 0<=si<=ri<=wi=len<=cap preserved, no panic. Unbounded induction over the call list. "
                       "Partial in three named respects: slot arguments are restricted to the decidable ValidSlot predicate; Reserve beyond "
                       "the allocator limit panics in append (known finding, refuted clause kept as C09_reserve_total_false; the buffer is "
-                      "proved and checked to stay untouched); the model is tied to the Go code by the differential trace check, not by translation.",
+                      "proved and checked to stay untouched); the model is tied to the Go code by the differential trace check, not by translation. "
+                      "Also proved over the three-list monitor: a write-out whose completion is held back (AsyncWriteTo over a writer that "
+                      "completes later) commutes with the Write/WriteByte/WriteString/Commit calls made meanwhile (C09_held_completion_commutes); "
+                      "the code side of that, and regions of 256 KiB-3 MiB, are checked by a Go-only direct monitor with a byte-list oracle.",
         "design_ref": "5/C09",
         "level_note": "Trusted: Lean kernel; the hand-written model Sonic/Model/ByteBuffer.lean (compared with the real ByteBuffer on every run: "
                       "return values, error class and the hex contents of all three regions after every call, including invalid slots and "
